@@ -217,3 +217,43 @@ Theorem vm_set_thread_same : forall s t th, ThreadFacts.th_valid s t ->
   Machine.get_thread (Machine.set_thread s t th) t = th.
 Proof. exact ThreadFacts.set_thread_same. Qed.
 Print Assumptions vm_set_thread_same.
+
+(* ---- wave 5: the hand-over of values to the resumer at the limit of its registers, after ANY
+   history of that thread (coq/Co/HandoverHist.v on top of the registry model coq/Stack/Registry.v
+   and the transcription of switchToParentThread coq/Stack/Handover.v) ---- *)
+From GL Require Stack.Registry Stack.RegSpec Stack.Handover Co.HandoverHist Co.HandoverHistFacts.
+
+(* From NewState on, through any sequence of pushes, SetTops and caught errors (raiseError's message
+   may make the array one cell longer than the limit; the limit itself never moves except by regular
+   growth), the values a coroutine yields or returns — with resume's boolean — either ALL arrive on
+   top of what the resumer holds, or NONE does and the resumer's registry is exactly as it was when
+   the overflow error is raised in it. Never a part of them (HoTorn), whatever the history. *)
+Theorem handover_complete_or_refused_after_any_history : forall init grow mx p c lc limc wrapped flag nargs,
+  0 <= init -> 0 <= grow \/ mx <= init ->
+  HandoverHist.history (Registry.newRegistry init grow mx) p -> RegSpec.Rr c lc limc -> 0 <= nargs <= len lc ->
+  let vs := Handover.handed wrapped flag (Handover.lastn nargs lc) in
+  let lim := Z.max init mx in
+  (Registry.top p + len vs <= lim /\
+     exists p' c', Handover.handover p c wrapped flag nargs = Handover.HoDone p' c' /\
+                   Registry.live p' = Registry.live p ++ vs /\ Registry.top p' = Registry.top p + len vs) \/
+  (lim < Registry.top p + len vs /\
+     exists c', Handover.handover p c wrapped flag nargs = Handover.HoRefused p c').
+Proof. exact HandoverHistFacts.handover_after_history_lemma. Qed.
+Print Assumptions handover_complete_or_refused_after_any_history.
+
+(* every step of such a history keeps the enforced limit: the representation relation holds with the
+   same limit before and after *)
+Theorem history_keeps_limit : forall r r', HandoverHist.history r r' ->
+  forall l lim, RegSpec.Rr r l lim -> exists l', RegSpec.Rr r' l' lim.
+Proof. exact HandoverHistFacts.history_Rr. Qed.
+Print Assumptions history_keeps_limit.
+
+(* the room check must read the limit, not the length of the array (seeded change C06-10): once the
+   array is one cell longer than the limit, the hand-over that needs exactly limit + 1 cells is torn *)
+Theorem handover_len_check_torn : forall p c l lc lim limc wrapped flag nargs,
+  RegSpec.Rr p l lim -> RegSpec.Rr c lc limc -> 0 <= nargs <= len lc ->
+  Registry.cap p = lim + 1 ->
+  len l + len (Handover.handed wrapped flag (Handover.lastn nargs lc)) = lim + 1 ->
+  HandoverHist.handover_len p c wrapped flag nargs = Handover.HoTorn.
+Proof. exact HandoverHistFacts.handover_len_torn_lemma. Qed.
+Print Assumptions handover_len_check_torn.
